@@ -168,10 +168,13 @@ def montecarlo_clause(cl, rng, n, replay):
         wts = rng.uniform(0.05, 1.0, M)
         if j % 4 == 0:
             wts = wts / wts.sum() * float(rng.choice([1.0, 0.3, 5.0, 1e-3]))
-        dg, ds = [("lognormal", "lognormal"), ("lognormal", "normal"), ("normal", "lognormal"), ("normal", "normal")][j % 4]
+        if j % 6 == 3:
+            # weights as whole numbers (cell areas in square metres): 32-bit values whose squares do not fit 32 bits, 64-bit values whose squares do not fit 64 bits
+            wts = rng.integers(40000, 90000, M).astype(np.int32) if (j // 6) % 2 == 0 else (rng.integers(1, 9, M) * 10 ** 10).astype(np.int64)
+        dg, ds = [("lognormal", "lognormal"), ("lognormal", "normal"), ("normal", "lognormal"), ("normal", "normal")][(j // 2) % 4 if j % 6 == 3 else j % 4]
         seed = int(rng.integers(0, 10 ** 6))
         mu, sd, reals = montecarlo_fn(means, stds, wts, dg, ds, n_realizations=nreal, rng=np.random.default_rng(seed))
-        mu2, sd2, reals2 = montecarlo_fn(means, stds, wts * 7.5, dg, ds, n_realizations=nreal, rng=np.random.default_rng(seed))
+        mu2, sd2, reals2 = montecarlo_fn(means, stds, (wts * 7.5 if wts.dtype.kind == 'f' else wts.astype(float) * 3), dg, ds, n_realizations=nreal, rng=np.random.default_rng(seed))
         if not (np.all(np.isfinite(reals)) and np.isfinite(mu)):
             cl.skipped += 1          # a normal generator produced a non-positive value for a lognormal spatial distribution: outside the domain
             continue
@@ -204,7 +207,7 @@ def montecarlo_clause(cl, rng, n, replay):
         if not np.all(np.isfinite(rows)):
             cl.skipped += 1
             continue
-        wn = wts / wts.sum()
+        wn = wts.astype(float) / wts.astype(float).sum()
         flat_w = np.repeat(wn / nreal, nreal)
         flat = rows.ravel()
         m_spatial = np.sum(flat * flat_w)
